@@ -117,7 +117,7 @@ func inFragment(t gotypes.Type) bool {
 // starts with a digit, several packages with one leaf, zero-length arrays, ...) ----
 
 var c02pkgs = []string{"ex.test/a/type", "ex.test/b/type", "ex.test/c/9p", "ex.test/d/9p", "ex.test/e/func", "ex.test/a/v1", "ex.test/b/v1",
-	"ex.test/my-pkg/proto", "single", "local/out", "ex.test/x/go", "ex.test/x/util", "ex.test/~bob/util", "ex.test/lib+x/util"}
+	"ex.test/my-pkg/proto", "single", "local/out", "ex.test/x/go", "ex.test/x/util", "ex.test/~bob/util", "ex.test/lib+x/util", "ex.test/lib/_", "ex.test/w/-"}
 
 func c02comparable(n *TNode) bool {
 	switch n.Kind {
@@ -257,6 +257,13 @@ func c02synthetic(g *Gen) {
 					bi("bool")}},
 			}
 			cls = append(cls, "nested-struct-after-struct")
+		case 3:
+			for _, p := range []string{"ex.test/lib/_", "ex.test/w/-", "_"} {
+				forced = append(forced, &TNode{Kind: "pointer", Kids: []*TNode{{Kind: "named", Pkg: p, Nm: "T"}}})
+			}
+			if useTracker {
+				cls = append(cls, "directory-without-letter-or-digit")
+			}
 		case 2:
 			for _, p := range []string{"ex.test/x/util", "ex.test/~bob/util", "ex.test/lib+x/util"} {
 				forced = append(forced, &TNode{Kind: "slice", Kids: []*TNode{{Kind: "named", Pkg: p, Nm: "T"}}})
